@@ -66,10 +66,11 @@ fn brief_path_selection_single(mut body: Rc<SExp>) -> (bool, Rc<SExp>) {
     }
 
     if found_stack > 0 {
-        let intval = if let SExp::Integer(_l, i) = body.borrow() {
-            Some(i.clone())
-        } else {
-            None
+        // Only a positive number is the path it spells: zero is nil, and the
+        // bytes of a negative number read as a large unsigned path.
+        let intval = match body.borrow() {
+            SExp::Integer(_l, i) if *i >= bi_one() => Some(i.clone()),
+            _ => None,
         };
 
         if let Some(i) = intval {
